@@ -297,6 +297,50 @@ fn generator_suite(ctx: &mut Ctx, rng: &mut Rng) {
                 Err(_) => ctx.count("generator_clean_panics"),
             }
         }
+        // hook H4 (native modes): the generator iterators themselves, not only what the collecting
+        // constructors make of them - conservation under next / nth / back consumption
+        #[cfg(feature = "hooks")]
+        {
+            use tea_core::verif_hooks::generators::{linspace, range};
+            let (fa, fb, fs) = (a as f64 / 2.0, b as f64 / 2.0, st as f64 / 4.0);
+            let ds = |s: String| move || s.clone();
+            conserve(ctx, "range_iter", &ds(format!("range({fa},{fb},{fs}) generator")), &|| Box::new(range(fa, fb, fs)), None);
+            conserve(ctx, "range_iter", &ds(format!("range({a},{b},{st}) i32 generator")), &|| Box::new(range(a as i32, b as i32, st as i32).map(|v| v as f64)), None);
+            conserve(ctx, "linspace_iter", &ds(format!("linspace({a},{b},{n}) generator")), &|| Box::new(linspace(a as f64, b as f64, n)), Some(n));
+            // both ends
+            for (name, mk) in [
+                ("range_iter", Box::new(|| range(fa, fb, fs)) as Box<dyn Fn() -> tea_core::verif_hooks::generators::Linspace<f64>>),
+                ("linspace_iter", Box::new(|| linspace(a as f64, b as f64, n))),
+            ] {
+                let all: Vec<f64> = mk().take(1_000).collect();
+                let total = all.len();
+                for front in 0..=total.min(3) {
+                    for back in 0..=(total - front).min(3) {
+                        ctx.events += 1;
+                        let mut it = mk();
+                        let mut got_f = Vec::new();
+                        let mut got_b = Vec::new();
+                        for _ in 0..front {
+                            got_f.extend(it.next());
+                        }
+                        for _ in 0..back {
+                            got_b.extend(it.next_back());
+                        }
+                        let h = it.size_hint();
+                        let rest: Vec<f64> = it.take(1_000).collect();
+                        got_b.reverse();
+                        let seq: Vec<f64> = got_f.into_iter().chain(rest.iter().copied()).chain(got_b).collect();
+                        if h.1 != Some(rest.len()) || rest.len() != total - front - back || bits(&seq) != bits(&all) {
+                            ctx.violation(&format!("{name}/double_ended"), || {
+                                format!("{name} a={a} b={b} st={st} n={n}: after {front} from the front and {back} from the back hint {h:?}, {} remain, sequence {seq:?} vs {all:?}", rest.len())
+                            });
+                            return;
+                        }
+                        ctx.count("generator_iter_probes_ok");
+                    }
+                }
+            }
+        }
     }
 }
 
